@@ -69,6 +69,10 @@ def install_codegen_models(I, W):
     def m_ccode(I2, args, kw):
         e = args[0]
         if isinstance(e, ExprV):
+            from contracts.pyblock import finite_f
+
+            # premise of D-ccode: the expression can be printed (no ComplexInfinity)
+            I2.path.oblige(f"{I2.path.ghost.get('site', 'ccode')}.printed_expression_has_no_complex_infinity", finite_f(e.z), theory="euf")
             return CStrV(ccode_f(e.z))
         raise Unsupported("ccode of a non-expression")
 
